@@ -380,7 +380,7 @@ pub fn run(ctx: &Ctx) -> CheckResult {
                     let cfg = Cfg::p1(k, n);
                     let mine = grows.iter().find(|r| r["subject"] == cfg.descr()).map(|r| (r["states"].as_u64().unwrap_or(0), r["fixpoint"] == true));
                     if let Some((states, true)) = mine {
-                        let x = crate::xcheck::run_lifecycle(&cfg, &super::graph::exact_alphabet(k), ctx.threads);
+                        let x = crate::xcheck::run_lifecycle(&cfg, &super::graph::exact_alphabet(k), ctx.threads, 2 * states as usize + 1000);
                         xrows.push(json!({"subject": cfg.descr(), "stateright_unique_states": x.unique_states, "seqmc_states": states, "discoveries": x.discoveries}));
                         res.require(x.unique_states as u64 == states, &format!("{}: stateright found {} lifecycle states, seqmc {}", cfg.descr(), x.unique_states, states));
                         res.require(x.discoveries == 0, &format!("{}: stateright reports reset() not reaching the fresh state although seqmc found no violation", cfg.descr()));
